@@ -11,7 +11,9 @@ from harness.lib.core import VERIF, Ctx, lean_lock, run_driver, shrink_ops
 from harness.extract import filesystem as x_fs
 from harness.extract import fsxlate as x_fsm
 from harness.extract import filesystem_node as x_fsn
+from harness.extract import filesystem_callers as x_fsc
 from harness.rigs import filesystem as rig
+from harness.rigs import filesystem_callers as crig
 
 MANIFEST = {
     "text": "Lean 4 proof, by induction over arbitrary sequences of file-system requests, agent actions and ticks, that the model of "
@@ -93,7 +95,7 @@ MANIFEST = {
 }
 MODULES = ["PrimaiteModel.Props.C15Keeps", "PrimaiteModel.Props.C15Loader", "PrimaiteModel.Props.C15", "PrimaiteModel.Props.C15Api", "PrimaiteModel.Props.C15Node", "PrimaiteModel.Props.C15Verbs",
            "PrimaiteModel.Props.C15Actions", "PrimaiteModel.Props.C15Inventory", "PrimaiteModel.Props.C15Disjoint",
-           "PrimaiteModel.Props.C15Health", "PrimaiteModel.Props.C15Create"]
+           "PrimaiteModel.Props.C15Health", "PrimaiteModel.Props.C15Create", "PrimaiteModel.Props.C15Callers"]
 EXE = "drv_c15"
 
 
@@ -138,7 +140,27 @@ def _op_sig(op: list) -> dict:
     return sig
 
 
+def _callers_only(case: dict):
+    """One case of the `callers` family (worker process): real DatabaseService / FTP / ransomware / data-manipulation code on a 3-node network."""
+    return crig.run_caller_case(case)
+
+
+def _report_callers(ctx: Ctx, name: str, case: dict, viol: list):
+    def fails(ops, case=case):
+        return bool(crig.run_caller_case(dict(case, ops=ops))[1])
+    small = dict(case, ops=shrink_ops(case["ops"], fails, budget=60))
+    trace, v2 = crig.run_caller_case(small)
+    if not v2:
+        small, (trace, v2) = case, crig.run_caller_case(case)
+    k, op, node, clauses = v2[0]
+    sig = {"op": op[0] if op else "setup", "kind": "oracle", "clause": clauses[0], "surface": "callers"}
+    ctx.violation(sig, f"C15 oracle fails on the file system of node {node} after op {k} {op} of a callers-outside-the-module trace: {clauses}",
+                  {"case": small, "trace": trace, "violations": [list(x) for x in v2], "from": name})
+
+
 def replay(rec: dict) -> bool:
+    if rec["replay"]["case"].get("surface") == "callers":
+        return not crig.run_caller_case(rec["replay"]["case"])[1]
     with lean_lock():
         from harness.lib.core import lake_build
         lake_build([EXE])
@@ -175,7 +197,28 @@ def run(ctx: Ctx):
         ctx.extract(x_fs.GEN_NAME, x_fs.emit)
         ctx.extract(x_fsm.GEN_NAME, x_fsm.emit)
         ctx.extract(x_fsn.GEN_NAME, x_fsn.emit)
+        ctx.extract(x_fsc.GEN_NAME, x_fsc.emit)
         ctx.prove(MODULES, exes=[EXE], clean=False, leanchecker=ctx.thorough)
+        # counter-model search for the translated Folder methods: turns a broken `C15_gen_restore_file / _add_file / _restoring_timestep /
+        # _lookups` proof into a readable folder (it proves nothing; when the theorems check it must find nothing). It needs Model + Gen only.
+        XNAME = "model:translated Folder methods agree with the model on every small folder (counter-model search)"
+        try:
+            import subprocess
+            from harness.lib.core import LEAN, lake_build
+            okb, outb = lake_build(["drv_c15xlate"])
+            if okb:
+                res = subprocess.run([str(LEAN / ".lake" / "build" / "bin" / "drv_c15xlate")], stdout=subprocess.PIPE, text=True, timeout=600)
+                found = [l for l in res.stdout.splitlines() if " counter-model " in l]
+                tried = [l for l in res.stdout.splitlines() if " ok " in l]
+                ctx.oblige(XNAME, "correspondence", not found and len(tried) == 6, " || ".join(found)[:3000] or res.stdout[:500])
+                for l in found:
+                    ctx.notes.append("REFUTED — counter-model of a translated Folder method: " + l[:1500])
+                ctx.count("counter-model-search:methods-agreeing", len(tried))
+                ctx.count("counter-model-search:methods-refuted", len(found))
+            else:
+                ctx.oblige(XNAME, "correspondence", False, "drv_c15xlate does not build (the translation was refused or does not elaborate): " + outb[-600:])
+        except Exception as e:
+            ctx.oblige(XNAME, "correspondence", False, f"{type(e).__name__}: {e}")
     ctx.cov["rule"] = ("case = (surface in {FileSystem.apply_request, Simulation.apply_request under a node, agent-action form_request, "
                        "`net` = a computer in a small network driven through sim.pre_timestep/apply_request/apply_timestep with power "
                        "requests, node scans and start-up/shut-down durations 0..3}, "
@@ -308,6 +351,31 @@ def run(ctx: Ctx):
             chunk = []
     if chunk:
         process(chunk)
+    # family `callers`: the code OUTSIDE simulator/file_system that reaches a file system through the Python API (inventory:
+    # Gen/FileSystemCallers.lean) — DatabaseService backup / restore_backup (service fix), FTP store / retrieve onto existing names,
+    # ransomware and data-manipulation attacks, C2 exfiltration folder — interleaved with file requests, folder restores and ticks on a
+    # real three-node network; C15's oracle (Inv + describe_state exact) is evaluated on every node's file system after every step.
+    t0 = time.time()
+    ccases = [(f"callers-fixed:{k}", c) for k, c in enumerate(crig.fixed_caller_cases())]
+    rngc = ctx.rng.fork("fs-callers")
+    ccases += [(f"callers:{k}", crig.gen_caller_case(rngc)) for k in range(ctx.scale(250, 4000))]
+    cres = pool.map(_callers_only, [c for _, c in ccases], chunksize=20) if pool else list(map(_callers_only, [c for _, c in ccases]))
+    cbad = 0
+    for (name, case), (trace, viol) in zip(ccases, cres):
+        ctx.cov["traces_validated_against_impl"] += 1
+        namesake = any("namesake" in t for t in trace)
+        ctx.case(case, any(o[0] in ("db_restore", "db_fix", "ftp_send", "ransom", "data_manip") for o in case["ops"]))
+        ctx.count("surface:callers")
+        for o, t in zip(case["ops"], trace[-len(case["ops"]):] if case["ops"] else []):
+            ctx.count("op:callers:" + o[0])
+            ctx.count(f"answer:callers:{o[0]}:{str(t).split(' ')[-1][:24]}")
+        if viol:
+            cbad += 1
+            if cbad <= 2:
+                _report_callers(ctx, name, case, viol)
+    ctx.notes.append(f"callers family: {len(ccases)} traces in {time.time() - t0:.1f}s")
+    ctx.oblige("rig:callers outside the module keep Inv and describe_state exact on every trace", "correspondence", cbad == 0,
+               f"{cbad} of {len(ccases)} traces violate the oracle")
     if pool:
         pool.close()
         pool.join()
